@@ -38,6 +38,74 @@ def run(ctx, chk):
     r3(ctx, chk)
     r4(ctx, chk)
     r5(ctx, chk, "C08.R5")
+    r6(ctx, chk, "C08.R6")
+
+
+def r6(ctx, chk, rule):
+    """the corrections decide "the string states the day/month/year" by the _token_<part> attributes (the constraint the
+    truth tables of R1/R2 rely on): wherever the absolute parser stores a component it records the token as well"""
+    import re as _re
+    cls = ctx.ix.cls("dateparser.parser:_parser")
+    funcs = [f for f in ctx.ix.funcs.values() if f.key.startswith(cls.key + ".")]
+    n = 0
+
+    def block_of(f, node):
+        """the statement list that contains node's statement"""
+        for parent in ast.walk(f.node):
+            for field in ("body", "orelse", "finalbody"):
+                blk = getattr(parent, field, None)
+                if isinstance(blk, list) and any(any(x is node for x in ast.walk(st)) and not isinstance(st, (ast.FunctionDef,)) for st in blk):
+                    # innermost: keep descending
+                    inner = [st for st in blk if any(x is node for x in ast.walk(st))][0]
+                    if isinstance(inner, (ast.If, ast.For, ast.While, ast.Try, ast.With)):
+                        continue
+                    return blk
+        return []
+
+    def token_stores(blk):
+        out = set()
+        for st in blk:
+            for c in ast.walk(st):
+                if isinstance(c, ast.Call) and isinstance(c.func, ast.Name) and c.func.id == "setattr" and len(c.args) == 3 \
+                        and ast.unparse(c.args[0]) == "self":
+                    t = ast.unparse(c.args[1])
+                    m = _re.fullmatch(r"'_token_%s' % (\w+)", t)
+                    if m:
+                        out.add(("var", m.group(1)))
+                    elif isinstance(c.args[1], ast.Constant) and str(c.args[1].value).startswith("_token_"):
+                        out.add(("const", c.args[1].value[len("_token_"):]))
+        return out
+
+    for f in funcs:
+        for c in iter_own_nodes(f.node):
+            # generic store of a component: setattr(self, <name>, value)
+            if isinstance(c, ast.Call) and isinstance(c.func, ast.Name) and c.func.id == "setattr" and len(c.args) == 3 \
+                    and ast.unparse(c.args[0]) == "self" and isinstance(c.args[1], ast.Name):
+                n += 1
+                ok = ("var", c.args[1].id) in token_stores(block_of(f, c))
+                chk.ob(rule, "%s: the component stored by `%s` has its token recorded in the same block" % (f.qual, " ".join(ast.unparse(c).split())[:50]), ok,
+                       "the part is set but _token_<part> is not: the day/month completion then treats a stated part as missing and overwrites it "
+                       "with the reference date's (e.g. '17 mars 2015' in a year-first locale)",
+                       key={"function": f.key, "construct": "token recorded with setattr(self, %s, ..)" % c.args[1].id}, file=f.file, function=f.qual, line=c.lineno)
+            # result lists consumed by setattr(self, *res): [(component, value), ...]
+            if isinstance(c, ast.Return) and isinstance(c.value, ast.List) and c.value.elts and all(
+                    isinstance(e, ast.Tuple) and len(e.elts) == 2 for e in c.value.elts):
+                have = token_stores(block_of(f, c))
+                for e in c.value.elts:
+                    comp = e.elts[0]
+                    n += 1
+                    if isinstance(comp, ast.Name):
+                        ok = ("var", comp.id) in have or (("const", "month") in have and ("const", "day") in have)
+                        what = comp.id
+                    elif isinstance(comp, ast.Constant):
+                        ok = ("const", comp.value) in have
+                        what = repr(comp.value)
+                    else:
+                        ok, what = False, ast.unparse(comp)
+                    chk.ob(rule, "%s: the result (%s, ..) is returned with its token recorded" % (f.qual, what), ok,
+                           "a parsed component is handed back without _token_<component>",
+                           key={"function": f.key, "construct": "token recorded for returned %s" % what}, file=f.file, function=f.qual, line=c.lineno)
+    chk.floor(rule, n, 4, "stores/returns of parsed components in _parser")
 
 
 def r5(ctx, chk, rule):
